@@ -18,7 +18,10 @@ CHAINS = [("chain:map,add,1/take,2", 9, 12), ("chain:filter,mod,2,0/map,mul,3/ta
 # an operator as a MEMBER of an n-ary operator (Ops/PlugOp.lean): `at:<j>/<stage>/<n-ary>`
 AT = [("at:0/take,1/combine,2", 8, 10), ("at:1/take,1/combine,2", 8, 10), ("at:0/take,2/merge,2", 8, 10), ("at:1/skip,1/concat,2", 8, 10),
       ("at:0/filter,mod,2,0/merge,3", 7, 9), ("at:1/take,1/concat,2", 8, 10), ("at:0/scan,lin,2,0/combine,2", 7, 9)]
-ALL = RELAYS + TAKES + MERGE + CONCAT + COMBINE + FLATTEN + SHARE + FROMITER + FOREACH + CHAINS + AT
+# the REAL from_iter as a member of an n-ary operator (Ops/Plug.lean): `in:<j>/<LEN>/<n-ary>` — what the operator sends to a member that
+# has ended (combine pulls ended members: KF2) meets the real source's own end-of-life guards
+IN = [("in:0/1/combine,2", 8, 10), ("in:1/2/combine,2", 8, 10), ("in:0/1/concat,2", 8, 10), ("in:1/2/concat,3", 7, 9), ("in:0/2/merge,2", 8, 10)]
+ALL = RELAYS + TAKES + MERGE + CONCAT + COMBINE + FLATTEN + SHARE + FROMITER + FOREACH + CHAINS + AT + IN
 
 # beyond the properties' domain (concat / combine / flatten members that greet late): watched for panics only, under C17
 LATE = [("concatL:2", 9, 12), ("concatL:3", 8, 10), ("combineL:2", 8, 11), ("flattenL", 9, 12)]
